@@ -506,8 +506,14 @@ Definition eval_if_step (self : evals) (st : state) (branches : list (expr * blo
           if truthy cv then r_eval_block self st1 b else r_eval_if self st1 rest els
       end.
 
+(* a block that completes hands the current statement back to the statement that holds it *)
 Definition eval_block_step (self : evals) (st : state) (b : block) : R :=
-match b with Block ss => r_eval_stmts self st ss [] end.
+match b with Block ss =>
+  match r_eval_stmts self st ss [] with
+  | ROk (v, st1) => ROk (v, with_stmt st1 (sstmt st))
+  | r => r
+  end
+end.
 
 Definition eval_stmts_step (self : evals) (st : state) (ss : list stmt) (acc : list value) : R :=
       match ss with
